@@ -313,6 +313,9 @@ struct ItemIn {
     amount2: i64,
 }
 impl ItemIn {
+    fn zero() -> ItemIn {
+        ItemIn { sym: String::new(), id: String::new(), time: None, sell: false, price: 0, amount: 0, price2: 0, amount2: 0 }
+    }
     fn to_json(&self) -> Value {
         json!({"sym": self.sym, "id": self.id, "time": self.time, "sell": self.sell,
                "price": self.price, "amount": self.amount, "price2": self.price2, "amount2": self.amount2})
@@ -435,6 +438,22 @@ fn q4(q: i64) -> String {
     let a = q.abs();
     format!("{}{}.{:02}", sign, a / 4, (a % 4) * 25)
 }
+/// quarter value as text in one of the shapes venues use: plain ("12.25"), eight decimals
+/// ("12.25000000"), integer form when integral ("12")
+fn q4v(q: i64, shape: u8) -> String {
+    match shape {
+        1 => format!("{}000000", q4(q)),
+        2 if q % 4 == 0 => format!("{}", q / 4),
+        _ => q4(q),
+    }
+}
+/// integer form when integral ("12"), else plain
+fn q4n(q: i64) -> String {
+    if q % 4 == 0 { format!("{}", q / 4) } else { q4(q) }
+}
+fn q4n_num(q: i64) -> Value {
+    serde_json::from_str::<Value>(&q4n(q)).unwrap()
+}
 fn q4_num(q: i64) -> Value {
     serde_json::from_str::<Value>(&q4(q)).unwrap()
 }
@@ -477,86 +496,118 @@ fn payload(ex: Ex, sk: Sk, m: &MsgIn) -> String {
             _ => r#"{"event":"heartbeat"}"#.to_string(),
         },
         MsgIn::Data { chan, sym, cid, items } => {
+            // Every field of the venue payload that the normaliser must NOT use carries a decoy:
+            // a value different from every value it must use (prices / quantities above all used
+            // ones, times at least a second away, other ids, the opposite boolean), so that a
+            // normaliser reading a neighbouring field (event time instead of trade time, filled
+            // instead of ordered quantity, average instead of order price ...) is observed. The
+            // designated fields are the ones the venue documentation / the connectors' own doc
+            // comments and tests name. The textual shape of numbers varies per item (plain, eight
+            // decimals, integer form) within what the venue sends.
             let first = items.first();
             let t0 = first.and_then(|i| i.time).unwrap_or(1_700_000_000_000);
+            let dq = |it: &ItemIn, k: i64| it.price.max(it.amount).max(it.price2).max(it.amount2) + 3 + 17 * k;
+            let dt = |t: i64, k: i64| t + 1009 * (k + 1) + 1;
+            let shape = |it: &ItemIn| ((it.price + 3 * it.amount + it.time.unwrap_or(0) / 7) % 3) as u8;
+            let qs = |q: i64, sh: u8| q4v(q, sh);
             match (ex, sk) {
                 (Ex::BinanceSpot | Ex::BinanceFuturesUsd, Sk::Trades) => {
                     let it = first.expect("single item");
+                    let sh = shape(it);
                     if ex == Ex::BinanceSpot {
-                        json!({"e":"trade","E":t0+3,"s":it.sym,"t":num_id(&it.id),"p":q4(it.price),"q":q4(it.amount),
-                               "b":10108767791u64,"a":10108764858u64,"T":t0,"m":it.sell,"M":true}).to_string()
+                        json!({"e":"trade","E":dt(t0,0),"s":it.sym,"t":num_id(&it.id),"p":qs(it.price,sh),"q":qs(it.amount,sh),
+                               "b":num_id(&it.id)+1_000_003,"a":num_id(&it.id)+2_000_003,"T":t0,"m":it.sell,"M":!it.sell}).to_string()
                     } else {
-                        json!({"e":"trade","E":t0+3,"T":t0,"s":it.sym,"t":num_id(&it.id),"p":q4(it.price),"q":q4(it.amount),
-                               "X":"MARKET","m":it.sell}).to_string()
+                        json!({"e":"trade","E":dt(t0,0),"T":t0,"s":it.sym,"t":num_id(&it.id),"p":qs(it.price,sh),"q":qs(it.amount,sh),
+                               "X":(["MARKET","LIQUIDATION","INSURANCE_FUND"][sh as usize]),"m":it.sell}).to_string()
                     }
                 }
                 (Ex::BinanceSpot | Ex::BinanceFuturesUsd, Sk::L1) => {
                     let it = first.expect("single item");
-                    let mut v = json!({"u":22606535573u64,"s":it.sym,"b":q4(it.price),"B":q4(it.amount),
-                                       "a":q4(it.price2),"A":q4(it.amount2)});
+                    let sh = shape(it);
+                    let mut v = json!({"u":22606535573u64 + dq(it,0) as u64,"s":it.sym,"b":qs(it.price,sh),"B":qs(it.amount,sh),
+                                       "a":qs(it.price2,sh),"A":qs(it.amount2,sh)});
                     if let Some(t) = it.time {
                         v["e"] = json!("bookTicker");
                         v["T"] = json!(t);
-                        v["E"] = json!(t + 3);
+                        v["E"] = json!(dt(t,0));
                     }
                     v.to_string()
                 }
                 (Ex::BinanceFuturesUsd, Sk::Liq) => {
+                    // q = original quantity, p = price (designated); ap = average price,
+                    // l = last filled, z = accumulated filled quantity, E = event time (decoys)
                     let it = first.expect("single item");
-                    json!({"e":"forceOrder","E":t0+5,"o":{"s":it.sym,"S":if it.sell {"SELL"} else {"BUY"},
-                           "o":"LIMIT","f":"IOC","q":q4(it.amount),"p":q4(it.price),"ap":q4(it.price+1),
-                           "X":"FILLED","l":q4(it.amount),"z":q4(it.amount),"T":t0}}).to_string()
+                    let sh = shape(it);
+                    json!({"e":"forceOrder","E":dt(t0,0),"o":{"s":it.sym,"S":if it.sell {"SELL"} else {"BUY"},
+                           "o":"LIMIT","f":"IOC","q":qs(it.amount,sh),"p":qs(it.price,sh),"ap":qs(dq(it,0),sh),
+                           "X":(["PARTIALLY_FILLED","NEW","FILLED"][sh as usize]),"l":qs(dq(it,1),sh),"z":qs(dq(it,2),sh),"T":t0}}).to_string()
                 }
                 (Ex::Bitfinex, _) => {
+                    // [CHANNEL_ID, "te", [ID, MTS, AMOUNT, PRICE]]; the connector must ignore
+                    // trailing elements the venue may add
                     let it = first.expect("single item");
                     let signed = if it.sell { -it.amount } else { it.amount };
-                    format!("[{},\"te\",[{},{},{},{}]]", cid, num_id(&it.id), t0, q4(signed), q4(it.price))
+                    match shape(it) {
+                        0 => format!("[{},\"te\",[{},{},{},{}]]", cid, num_id(&it.id), t0, q4n(signed), q4n(it.price)),
+                        1 => format!("[{},\"te\",[{},{},{},{},{}]]", cid, num_id(&it.id), t0, q4(signed), q4(it.price), q4(dq(it,0))),
+                        _ => format!("[{},\"te\",[{},{},{},{}],{}]", cid, num_id(&it.id), t0, q4n(signed), q4(it.price), dt(t0,0)),
+                    }
                 }
                 (Ex::Bitmex, _) => json!({"table": chan, "action": "insert", "data": items.iter().map(|it| json!({
                         "timestamp": rfc3339(it.time.unwrap_or(t0)), "symbol": it.sym,
-                        "side": if it.sell {"Sell"} else {"Buy"}, "size": q4_num(it.amount), "price": q4_num(it.price),
-                        "tickDirection": "MinusTick", "trdMatchID": it.id, "grossValue": 814184,
-                        "homeNotional": 0.00814184, "foreignNotional": 200, "trdType": "Regular"})).collect::<Vec<_>>()})
+                        "side": if it.sell {"Sell"} else {"Buy"},
+                        "size": if shape(it) == 0 { q4_num(it.amount) } else { q4n_num(it.amount) },
+                        "price": if shape(it) == 1 { q4_num(it.price) } else { q4n_num(it.price) },
+                        "tickDirection": "MinusTick", "trdMatchID": it.id, "grossValue": dq(it,0) * 25,
+                        "homeNotional": q4_num(dq(it,1)), "foreignNotional": q4n_num(dq(it,2)), "trdType": "Regular"})).collect::<Vec<_>>()})
                     .to_string(),
                 (Ex::BybitSpot | Ex::BybitPerpetualsUsd, _) => json!({"topic": format!("{chan}.{sym}"), "type": "snapshot",
-                        "ts": t0 + 3, "data": items.iter().map(|it| json!({
+                        "ts": dt(t0,0), "data": items.iter().enumerate().map(|(i, it)| json!({
                         "T": it.time.unwrap_or(t0), "s": it.sym, "S": if it.sell {"Sell"} else {"Buy"},
-                        "v": q4(it.amount), "p": q4(it.price), "L": "PlusTick", "i": it.id, "BT": false})).collect::<Vec<_>>()})
+                        "v": qs(it.amount, shape(it)), "p": qs(it.price, shape(it)), "L": "PlusTick", "i": it.id,
+                        "BT": !it.sell, "seq": dq(it, i as i64)})).collect::<Vec<_>>()})
                     .to_string(),
                 (Ex::Coinbase, _) => {
                     let it = first.expect("single item");
-                    json!({"type":"match","trade_id":num_id(&it.id),"sequence":50,
+                    json!({"type":"match","trade_id":num_id(&it.id),"sequence":num_id(&it.id) + 777,
                            "maker_order_id":"ac928c66-ca53-498f-9c13-a110027a60e8",
                            "taker_order_id":"132fb6ae-456b-4654-b4e0-d681ac05cea1",
-                           "time": rfc3339(t0), "product_id": it.sym, "size": q4(it.amount), "price": q4(it.price),
+                           "time": rfc3339(t0), "product_id": it.sym, "size": qs(it.amount, shape(it)), "price": qs(it.price, shape(it)),
                            "side": if it.sell {"sell"} else {"buy"}}).to_string()
                 }
                 (Ex::GateioSpot, _) => {
+                    // create_time_ms (designated) vs create_time / time / time_ms (decoys)
                     let it = first.expect("single item");
                     let frac = ["", ".5", ".25"][(t0 % 3) as usize];
-                    json!({"time": t0/1000, "time_ms": t0+18, "channel": chan, "event": "update", "result": {
-                           "id": num_id(&it.id), "create_time": t0/1000, "create_time_ms": format!("{t0}{frac}"),
+                    json!({"time": dt(t0,0)/1000, "time_ms": dt(t0,0), "channel": chan, "event": "update", "result": {
+                           "id": num_id(&it.id), "create_time": dt(t0,1)/1000, "create_time_ms": format!("{t0}{frac}"),
                            "side": if it.sell {"sell"} else {"buy"}, "currency_pair": it.sym,
-                           "amount": q4(it.amount), "price": q4(it.price)}}).to_string()
+                           "amount": qs(it.amount, shape(it)), "price": qs(it.price, shape(it))}}).to_string()
                 }
-                (e, _) if e.is_gateio() => json!({"time": t0/1000, "time_ms": t0+9, "channel": chan, "event": "update",
-                        "result": items.iter().map(|it| json!({
-                        "size": q4_num(if it.sell { -it.amount } else { it.amount }), "id": num_id(&it.id),
-                        "create_time": it.time.unwrap_or(t0)/1000, "create_time_ms": it.time.unwrap_or(t0),
-                        "price": q4(it.price), "contract": it.sym})).collect::<Vec<_>>()})
+                (e, _) if e.is_gateio() => json!({"time": dt(t0,0)/1000, "time_ms": dt(t0,0), "channel": chan, "event": "update",
+                        "result": items.iter().map(|it| {
+                        let signed = if it.sell { -it.amount } else { it.amount };
+                        json!({
+                        "size": if shape(it) == 0 { q4_num(signed) } else { q4n_num(signed) }, "id": num_id(&it.id),
+                        "create_time": dt(it.time.unwrap_or(t0),1)/1000, "create_time_ms": it.time.unwrap_or(t0),
+                        "price": qs(it.price, shape(it)), "contract": it.sym})}).collect::<Vec<_>>()})
                     .to_string(),
-                (Ex::Kraken, Sk::Trades) => json!([0, items.iter().map(|it| json!([
-                        q4(it.price), q4(it.amount), secs_frac(it.time.unwrap_or(t0)),
-                        if it.sell {"s"} else {"b"}, "l", ""])).collect::<Vec<_>>(), "trade", sym])
+                (Ex::Kraken, Sk::Trades) => json!([dq(items.first().unwrap_or(&ItemIn::zero()), 0), items.iter().map(|it| json!([
+                        qs(it.price, shape(it) % 2), qs(it.amount, shape(it) % 2), secs_frac(it.time.unwrap_or(t0)),
+                        if it.sell {"s"} else {"b"}, if shape(it) == 0 {"l"} else {"m"}, ""])).collect::<Vec<_>>(), "trade", sym])
                     .to_string(),
                 (Ex::Kraken, _) => {
+                    // [bid, ask, timestamp, bidVolume, askVolume]
                     let it = first.expect("single item");
-                    json!([0, [q4(it.price), q4(it.price2), secs_frac(t0), q4(it.amount), q4(it.amount2)], "spread", sym])
+                    let sh = shape(it) % 2;
+                    json!([dq(it,0), [qs(it.price,sh), qs(it.price2,sh), secs_frac(t0), qs(it.amount,sh), qs(it.amount2,sh)], "spread", sym])
                         .to_string()
                 }
-                (Ex::Okx, _) => json!({"arg": {"channel": chan, "instId": sym}, "data": items.iter().map(|it| json!({
-                        "instId": it.sym, "tradeId": it.id, "px": q4(it.price), "sz": q4(it.amount),
-                        "side": if it.sell {"sell"} else {"buy"}, "ts": it.time.unwrap_or(t0).to_string()})).collect::<Vec<_>>()})
+                (Ex::Okx, _) => json!({"arg": {"channel": chan, "instId": sym}, "data": items.iter().enumerate().map(|(i, it)| json!({
+                        "instId": it.sym, "tradeId": it.id, "px": qs(it.price, shape(it)), "sz": qs(it.amount, shape(it)),
+                        "side": if it.sell {"sell"} else {"buy"}, "ts": it.time.unwrap_or(t0).to_string(),
+                        "count": (dq(it, i as i64)).to_string()})).collect::<Vec<_>>()})
                     .to_string(),
                 (e, k) => panic!("unsupported pair {e:?} {k:?}"),
             }
